@@ -385,7 +385,11 @@ def check(idx: Index, rep: Report, tier: str) -> str:
             t = resolved_text(cfgm, rt.value, cfgm.node_of(rt))
             inst = f"{m.fq}:{unparse(rt.value)[:40]}"
             loc = f"{AE}:{rt.lineno}"
-            if f"_try_fold_constant({other}, AffineBinaryOpKind.{kind})" in t or t == f"AffineBinaryOpExpr(AffineBinaryOpKind.{kind}, self, {other})":
+            # the operand may be a renamed copy of `other` (an inlined helper renames its parameters)
+            aliases = {other} | {s_.targets[0].id for s_ in walk_local(m.node) if isinstance(s_, ast.Assign) and len(s_.targets) == 1 and isinstance(s_.targets[0], ast.Name) and ((isinstance(s_.value, ast.Name) and s_.value.id == other) or unparse(s_.value) in (f"AffineExpr.constant({s_.targets[0].id})", f"AffineExpr._as_expr({other})", f"AffineExpr.constant({other})"))}
+            al = "|".join(re.escape(a_) for a_ in sorted(aliases))
+            al = rf"{al}|AffineExpr\.\w+\((?:{al})\)"
+            if re.search(rf"_try_fold_constant\((?:{al}), AffineBinaryOpKind\.{kind}\)", t) or re.fullmatch(rf"AffineBinaryOpExpr\(AffineBinaryOpKind\.{kind}, self, (?:{al})\)", t):
                 r4.ok(inst, f"{loc} {nm}: {unparse(rt.value)[:60]}")
                 continue
             facts = [(unparse(x), pol) for x, pol in guard_facts(m.node, rt)]
